@@ -595,7 +595,7 @@ func TestC27(t *testing.T) {
 	r.Set("single_fault_cases", int64(singles))
 	r.Set("pair_cases", int64(len(cases)-singles))
 
-	deadline := vr.Deadline(45*time.Second, 9*time.Minute)
+	deadline := vr.Deadline(4*time.Minute, 24*time.Minute) // safety net below the INDEX timeouts (10m / 30m); an idle machine needs ~10 s / a few minutes
 	var skipped, notFired int64
 	var infraMsg string
 	var mu = make(chan struct{}, 1)
